@@ -14,6 +14,7 @@ import (
 	"berty.tech/go-orbit-db/stores/documentstore"
 	"berty.tech/go-orbit-db/stores/eventlogstore"
 	"berty.tech/go-orbit-db/stores/kvstore"
+	"berty.tech/go-orbit-db/stores/operation"
 	coreiface "github.com/ipfs/kubo/core/coreiface"
 	"verif/harness/sim"
 )
@@ -284,5 +285,100 @@ func (r *coreRun) snapshots() {
 	h.ReleaseAll()
 	if err := r.c.settle(); err != nil {
 		r.res.note("%s: snapshots: settle after release: %v", r.bid, err)
+	}
+}
+
+// ---------------------------------------------------------------------------
+// C08: range queries. Every row of the window table TLC evaluated from
+// spec/Windows.tla (listing length, bound kind and position, amount -> positions)
+// is put to the real List and Stream of every replica whose listing has that length.
+
+type WindowRow struct {
+	N    int    `json:"n"`
+	Kind string `json:"kind"`
+	Pos  int    `json:"pos"`
+	Amt  int    `json:"amt"`
+	Res  []int  `json:"res"`
+}
+
+func (r *coreRun) windows() {
+	ctx := context.Background()
+	r.step = -3
+	for _, name := range r.c.names {
+		store := r.c.refs[name].S.(orbitdb.EventLogStore)
+		entries := r.c.refs[name].S.OpLog().Values().Slice()
+		full := r.c.listing(name)
+		n := len(full)
+		for _, row := range r.in.Windows {
+			if row.N != n {
+				continue
+			}
+			opts := &iface.StreamOptions{}
+			if row.Amt != -100 {
+				a := row.Amt
+				opts.Amount = &a
+			}
+			if row.Kind != "none" {
+				h := entries[row.Pos-1].GetHash()
+				switch row.Kind {
+				case "gt":
+					opts.GT = &h
+				case "gte":
+					opts.GTE = &h
+				case "lt":
+					opts.LT = &h
+				case "lte":
+					opts.LTE = &h
+				}
+			}
+			want := []int{}
+			for _, p := range row.Res {
+				want = append(want, full[p-1])
+			}
+			ops, err := store.List(ctx, opts)
+			r.res.Comparisons++
+			r.res.Stats["window_queries"]++
+			what := fmt.Sprintf("replica %s, listing of %d, %s position %d, amount %d", name, n, row.Kind, row.Pos, row.Amt)
+			if err != nil {
+				r.violate("window", what+": List failed: "+err.Error(), want, nil)
+				continue
+			}
+			got := []int{}
+			for _, op := range ops {
+				id, ok := r.c.ids[op.GetEntry().GetHash().String()]
+				if !ok {
+					id = -1
+				}
+				got = append(got, id)
+			}
+			if !eqInts(got, want) {
+				r.violate("window", what+": List returns a different window", want, got)
+			}
+			// Stream must deliver the same window
+			ch := make(chan operation.Operation, n+4)
+			if err := store.Stream(ctx, ch, opts); err != nil {
+				r.violate("window", what+": Stream failed: "+err.Error(), want, nil)
+				continue
+			}
+			sg := []int{}
+			for op := range ch {
+				sg = append(sg, r.c.ids[op.GetEntry().GetHash().String()])
+			}
+			if !eqInts(sg, want) {
+				r.violate("window", what+": Stream returns a different window", want, sg)
+			}
+		}
+		// Get by address returns that entry
+		for i, e := range entries {
+			op, err := store.Get(ctx, e.GetHash())
+			r.res.Comparisons++
+			if err != nil || op == nil || !op.GetEntry().GetHash().Equals(e.GetHash()) {
+				r.violate("get", fmt.Sprintf("replica %s: Get of the entry at position %d does not return it (%v)", name, i+1, err), full[i], nil)
+			}
+		}
+		// the listing must not have been disturbed by the queries
+		if after := r.c.listing(name); !eqInts(after, full) {
+			r.violate("window", "the listing changed while it was being queried", full, after)
+		}
 	}
 }
